@@ -4,7 +4,7 @@ from lib import vf, srv
 
 ID = "C06"
 PROP_FILE = "Props/C06.v"
-CONSTS = []
+CONSTS = ["truncated_cmp"]
 RULE = ("(server) real ServerHandler sessions: 'map <count query>' followed by 1-12 cat commands on files of 0,1,2,99-101,5000 lines "
         "behind private cat limits 1-3, commands back to back or spaced, consumer fast or slow; the AGGREGATE messages are summed "
         "and must equal the total number of lines, and the session must end; (client) 2-48 per-server client Aggregates delivering "
